@@ -171,6 +171,14 @@ pub(crate) mod alloc {
 
         /// Compute a FFT, modifying the vector in place.
         fn fft_in_place(&self, coeffs: &mut Vec<BlsScalar>) {
+            // A polynomial with more coefficients than the domain has points
+            // evaluates, on the domain, like its reduction modulo `X^n - 1`:
+            // fold the excess coefficients back instead of dropping them.
+            let size = self.size();
+            for i in size..coeffs.len() {
+                let excess = coeffs[i];
+                coeffs[i % size] += excess;
+            }
             coeffs.resize(self.size(), BlsScalar::zero());
             best_fft(coeffs, self.group_gen, self.log_size_of_group)
         }
